@@ -415,6 +415,61 @@ func (m *m6) index0(v ssa.Value) string {
 		if d := m.compactCounter(x); d != "" {
 			return d
 		}
+	case *ssa.Call:
+		// the low 64 bits of a field element: a domain point only under a full-width membership test
+		if core.IsMethod(core.Callee(x.Common()), "math/big", "Int", "Uint64") {
+			return m.fieldElemAsIndex(x)
+		}
+	case *ssa.Extract:
+		// (index, ok) helpers: look at the returned expression of a module callee
+		if call, ok := x.Tuple.(*ssa.Call); ok {
+			if f := core.Callee(call.Common()); f != nil && core.InModule(f) && len(f.Blocks) > 0 {
+				for _, r := range core.Returns(f) {
+					if x.Index < len(r.Results) {
+						sub := &m6{c: m.c, fn: f, vl: m.vl, cls: countedLoops(f), memoBase: map[ssa.Value]string{}, memoIdx: map[ssa.Value]string{}, busy: map[ssa.Value]bool{}}
+						if d := sub.index(r.Results[x.Index]); d != "" {
+							if d == "DOM?" {
+								return "BAD:low64"
+							}
+							return d
+						}
+					}
+				}
+			}
+		}
+	}
+	return ""
+}
+
+// fieldElemAsIndex: v = B.Uint64() where B = regular form of a field element E. It is a domain point only if
+// the use is guarded by a full-width comparison of E with VectorLength-1; a guard on v itself looks at the low
+// 64 bits only (2^64+3 would pass for 3).
+func (m *m6) fieldElemAsIndex(u *ssa.Call) string {
+	fn := u.Parent()
+	// full-width guard: some fr.Element.Cmp(...) result tested in this function before the use
+	for _, cd := range core.Conds(fn) {
+		if call, ok := cd.X.(*ssa.Call); ok && core.IsMethod(core.Callee(call.Common()), "bandersnatch/fr", "Element", "Cmp") {
+			if strings.Contains(core.PathOf(call.Call.Args[1]), "maxEvalPointInsideDomain") {
+				return "DOM"
+			}
+		}
+	}
+	for _, cd := range core.Conds(fn) {
+		if core.StripConv(cd.X) == ssa.Value(u) {
+			if k, ok := core.ConstInt(cd.Y); ok && (k == m.vl || k == m.vl-1) {
+				return "BAD:low64"
+			}
+		}
+	}
+	// compared by the caller of a helper returning (index, index < size)
+	for _, r := range core.Returns(fn) {
+		for _, res := range r.Results {
+			if b, ok := res.(*ssa.BinOp); ok && core.StripConv(b.X) == ssa.Value(u) {
+				if k, isK := core.ConstInt(b.Y); isK && (k == m.vl || k == m.vl-1) {
+					return "DOM?"
+				}
+			}
+		}
 	}
 	return ""
 }
@@ -486,6 +541,8 @@ func RuleM6(c *Ctx) {
 				ord++
 				key := fmt.Sprintf("%s:%s[%s]#%d", core.FnName(fn), shortPath(base), shortPath(idx), ord)
 				switch {
+				case id == "BAD:low64" || id == "DOM?":
+					c.Bad("M6", key, i.Pos(), "the index is the low 64 bits of a field element, and membership in the domain is decided on those 64 bits only: a point such as 2^64+3 is treated as the domain point 3 (the test must compare the whole field element with VectorLength-1)")
 				case bd == "" || id == "":
 					c.Und("M6", key, i.Pos(), fmt.Sprintf("cannot infer the index domain (array: %q, index: %q)", bd, id))
 				case id == "*":
